@@ -756,9 +756,33 @@ func CheckQualifierFinal(run *core.Run, prog *load.Program) {
 		}
 		return false
 	}
+	// a call reads a qualifier if it is Package.Qualifier or a moq function that calls it
+	readsQualifier := func(fn *types.Func) bool {
+		if fn == nil {
+			return false
+		}
+		if load.FuncName(fn) == "Package.Qualifier" && prog.IsMoqPkg(fn.Pkg()) {
+			return true
+		}
+		decl := prog.Decl(fn)
+		if decl == nil || decl.Body == nil || !prog.IsMoqPkg(fn.Pkg()) || fn.Pkg().Path() != load.PkgMoq {
+			return false
+		}
+		found := false
+		inf := prog.Info(fn.Pkg())
+		ast.Inspect(decl.Body, func(n ast.Node) bool {
+			if call, ok := n.(*ast.CallExpr); ok {
+				if cf, ok := typeutil.Callee(inf, call).(*types.Func); ok && load.FuncName(cf) == "Package.Qualifier" {
+					found = true
+				}
+			}
+			return true
+		})
+		return found
+	}
 	n := 0
 	for _, s := range f.Sites() {
-		if s.Callee == nil || load.FuncName(s.Callee) != "Package.Qualifier" {
+		if s.Callee == nil || !readsQualifier(s.Callee.Origin()) {
 			continue
 		}
 		n++
